@@ -213,6 +213,13 @@ func (ic *ImageConfiguration) Validate() error {
 			return fmt.Errorf("configured user %v has UID 0 (to run as root, use `run-as: 0`)", u)
 		}
 
+		// The fields are written verbatim into /etc/passwd and the reader trims
+		// the line: a separator, a newline or (at either end of the line) a
+		// blank inside one of them would corrupt the line or add an entry.
+		if strings.ContainsAny(u.UserName, ": \t\n\r\v\f") || strings.ContainsAny(u.Shell, ": \t\n\r\v\f") || strings.ContainsAny(u.HomeDir, ":\n") {
+			return fmt.Errorf("configured user %q has a name, shell or home directory containing ':', a newline or a blank", u.UserName)
+		}
+
 		if u.HomeDir == "" {
 			ic.Accounts.Users[i].HomeDir = "/home/" + u.UserName
 		}
@@ -221,6 +228,14 @@ func (ic *ImageConfiguration) Validate() error {
 	for _, g := range ic.Accounts.Groups {
 		if g.GroupName == "" {
 			return fmt.Errorf("configured group %v has no configured group name", g)
+		}
+		if strings.ContainsAny(g.GroupName, ": \t\n\r\v\f") {
+			return fmt.Errorf("configured group %q has a name containing ':', a newline or a blank", g.GroupName)
+		}
+		for _, m := range g.Members {
+			if strings.ContainsAny(m, ":, \t\n\r\v\f") {
+				return fmt.Errorf("configured group %q has a member containing ':', ',', a newline or a blank", g.GroupName)
+			}
 		}
 	}
 	return nil
